@@ -371,6 +371,15 @@ fn end_to_end(metric: Metric, d: usize) -> Result<u64, Violation> {
                 crate::oracle::check_result(metric, d, &model, &q, 9, None, &res, crate::oracle::Exactness::Exact, true)
                     .map_err(|(c, m)| (format!("D/e2e-{c}"), format!("dimension {d}: {m}")))?;
             }
+            // by item: the query's header is the stored one (filled by the build's preprocessing pass), not a fresh one
+            for id in 0..9u32 {
+                let res = crate::hist::query::<D>(&reader, &wtxn, Some(id), None, 9, Some(usize::MAX), None, None)
+                    .map_err(|e| ("D/e2e".to_string(), e))?
+                    .unwrap();
+                queries += 1;
+                crate::oracle::check_result(metric, d, &model, &model[&id], 9, None, &res, crate::oracle::Exactness::Exact, true)
+                    .map_err(|(c, m)| (format!("D/e2e-by-item-{c}"), format!("dimension {d}, by_item({id}): {m}")))?;
+            }
             Ok(())
         })
     });
